@@ -184,4 +184,61 @@ def resolve (algo : Nat) (sets : List (List Event)) (auth : List Event) (rejecte
   let s4 := unconf.foldl applyOneA s3
   s4.map (·.2.eventID)
 
+/-! ## Version 1: the definition `V1Result` (VModel/StateResSpec.lean: `ConflictedV1`, `phaseBlocks`, `IsV1Order`,
+    `AuthBlockRun`, `afterBlock`, `PhaseRun`, `registerAll`, `IsNormalWinner`, `V1Resolves`) executed clause by clause.
+    It shares the registered-auth-events record `V1State` and the auth check `v1Allowed` with the definition (which is
+    stated over them) and no loop with the model's `resolveV1` (its grouping, sorting and block functions are not used). -/
+
+open V.StateRes (V1State v1Allowed v1Lt)
+
+/-- some state set maps the key of `e` to another event -/
+def isConflictedV1 (sets : List (List Event)) (e : Event) : Bool :=
+  (keyOf e).isSome && sets.any (fun S => S.any (fun x => keyOf x == keyOf e && !sameID x e))
+
+/-- `IsV1Order`: insert each candidate into the list ordered by (depth ascending, SHA-1 descending) -/
+def insertV1 (sha : ID → Bytes) (x : Event) : List Event → List Event
+  | [] => [x]
+  | y :: ys => if v1Lt (v1Key sha x) (v1Key sha y) then x :: y :: ys else y :: insertV1 sha x ys
+
+def v1Order (sha : ID → Bytes) (block : List Event) : List Event := block.foldr (insertV1 sha) []
+
+/-- `AuthBlockRun`: (winner, registered events after the run) -/
+def authBlockRun (valid : Bool) : V1State → Event → List Event → Event × V1State
+  | s, w, [] => (w, s)
+  | s, w, e :: more => if v1Allowed s valid e then authBlockRun valid (s.addAuthEvent e) e more else (w, s)
+
+/-- `PhaseRun`: (registered events after the phase, winners) -/
+def phaseRun (sha : ID → Bytes) (valid : Bool) : V1State → List (List Event) → V1State × List Event
+  | s, [] => (s, [])
+  | s, block :: blocks =>
+    match v1Order sha block with
+    | [] => phaseRun sha valid s blocks
+    | c0 :: rest =>
+      let r := authBlockRun valid (s.addAuthEvent c0) c0 rest
+      let t := phaseRun sha valid (afterBlock s r.2 c0 r.1) blocks
+      (t.1, r.1 :: t.2)
+
+/-- `IsNormalWinner`: the last candidate after the first that passes the check, else the first -/
+def normalWinner (valid : Bool) (s : V1State) : List Event → Option Event
+  | [] => none
+  | c0 :: rest => some (((rest.filter (fun e => v1Allowed s valid e)).getLast?).getD c0)
+
+def sameRoom (auth : List Event) : Bool := auth.all (fun a => auth.all (fun b => a.roomID == b.roomID))
+
+/-- `V1Resolves`, executed -/
+def v1Resolve (sha : ID → Bytes) (conflicted auth : List Event) : List Event :=
+  let valid := sameRoom auth
+  let p0 := phaseRun sha valid (registerAll {} auth) (phaseBlocks conflicted 0)
+  let p1 := phaseRun sha valid (registerAll p0.1 p0.2) (phaseBlocks conflicted 1)
+  let p2 := phaseRun sha valid (registerAll p1.1 p1.2) (phaseBlocks conflicted 2)
+  let p3 := phaseRun sha valid (registerAll p2.1 p2.2) (phaseBlocks conflicted 3)
+  let p4 := phaseRun sha valid (registerAll p3.1 p3.2) (phaseBlocks conflicted 4)
+  let r6 := (phaseBlocks conflicted 5).filterMap (fun b => normalWinner valid (registerAll p4.1 p4.2) (v1Order sha b))
+  p0.2 ++ p1.2 ++ p2.2 ++ p3.2 ++ p4.2 ++ r6
+
+/-- `V1Result`, executed: the version-1 entry point -/
+def v1Result (sha : ID → Bytes) (sets : List (List Event)) (auth : List Event) : List ID :=
+  let st := stateEvents sets
+  (v1Resolve sha (st.filter (isConflictedV1 sets)) auth ++ st.filter (fun e => !isConflictedV1 sets e)).map (·.eventID)
+
 end V.StateResSpec.Exec
